@@ -101,18 +101,27 @@ class Pull:
 
 
 class Task:
+    """twisted.internet.task.CooperativeTask's contract: pauses are COUNTED (the task runs again only after as many resume() as pause() calls),
+    and resume() of a task that is not paused raises NotPaused"""
     def __init__(self, coop, it):
         self.coop, self.it = coop, it
-        self.paused = False
+        self.pauses = 0
         self.stopped = False
         self.signals = []
 
+    @property
+    def paused(self):
+        return self.pauses > 0
+
     def pause(self):
-        self.paused = True
+        self.pauses += 1
         self.signals.append("pause")
 
     def resume(self):
-        self.paused = False
+        if self.pauses == 0:
+            from twisted.internet.task import NotPaused
+            raise NotPaused()
+        self.pauses -= 1
         self.signals.append("resume")
 
     def stop(self):
